@@ -26,4 +26,8 @@ from rules import core, hir, inline      # noqa: E402
 F = core.Facts(d)
 json.dump(inline.summaries_of(F, names), open(os.path.join(HERE, "rules", "known_summaries.json"), "w"), indent=0)
 json.dump(sorted(c["path"] for c in d["consts"]), open(os.path.join(HERE, "rules", "known_consts.json"), "w"), indent=0)
+# declaration-side signature of every local of every anchored function (rules/inline.canon_locals)
+locs = {f["path"]: [[b[0], b[2], b[3], b[4]] for b in inline.local_bindings(f["hir"])] for f in d["fns"]
+        if f["kind"] in ("Fn", "AssocFn") and f.get("hir")}
+json.dump(locs, open(os.path.join(HERE, "rules", "known_locals.json"), "w"), indent=0)
 print(len(names), "functions frozen")
